@@ -145,42 +145,11 @@ def run_case(rng, idx, tier, lane, ctx):
         bad("constructor raised on valid input", error=repr(e)[:300])
         return {"status": "violated", "witnesses": witnesses, "sample": case, "counters": counters}
 
-    yv, mv = case["y"], case["yhat"]
+    yv = case["y"]
     wv = case["weights"]
-    # ---- loss value.  Weighted form is only stated for Square; other classes are judged unweighted.
-    judge_loss = (wv is None) or kind == "Square"
-    if judge_loss:
-        ref = R.mp.mpf(0)
-        scale = R.mp.mpf(0)
-        for i in range(m):
-            v, s = R.nll_terms(kind, yv[i], mv[i], sp_vals[i], None if wv is None else wv[i])
-            ref += v
-            scale += s
-        try:
-            got = obj.loss(yhat)
-            counters["loss_checks"] += 1
-            if np.ndim(got) != 0:
-                bad("loss is not a scalar", shape=list(np.shape(got)))
-            elif not abs(float(got) - float(ref)) <= 1e-9 * float(scale) + 1e-300:
-                bad("loss differs from the reference negative log-likelihood", got=float(got), expected=float(ref),
-                    scale=float(scale), y=yv, yhat=mv, spread=sp_vals)
-        except Exception as e:
-            bad("loss raised on valid input", error=repr(e)[:300])
-    else:
-        # with weights on a likelihood class: the unweighted loss is still well defined
-        try:
-            got = obj.loss(yhat, apply_weighting=False)
-            ref = R.mp.fsum(R.nll_terms(kind, yv[i], mv[i], sp_vals[i])[0] for i in range(m))
-            scale = R.mp.fsum(R.nll_terms(kind, yv[i], mv[i], sp_vals[i])[1] for i in range(m))
-            counters["loss_checks"] += 1
-            if not abs(float(got) - float(ref)) <= 1e-9 * float(scale) + 1e-300:
-                bad("unweighted loss differs from the reference negative log-likelihood", got=float(got),
-                    expected=float(ref), y=yv, yhat=mv, spread=sp_vals)
-        except Exception as e:
-            bad("loss(apply_weighting=False) raised on valid input", error=repr(e)[:300])
+    expect_shape = (n, p) if layout == "mat" else (n,)
 
-    # ---- derivatives of the unweighted loss, per prediction
-    def dscale(i, order):
+    def dscale_at(mv, i, order):
         yy, mm, s = abs(yv[i]), abs(mv[i]), sp_vals[i]
         if kind == "Square":
             return 2 * (yy + mm) if order == 1 else 2.0
@@ -195,36 +164,86 @@ def run_case(rng, idx, tier, lane, ctx):
                 return s * (yy + mm) / (mm * (s + mm))
             return s * ((yy + mm) * (2 * mm + s) + mm * (s + mm)) / (mm ** 2 * (s + mm) ** 2)
 
-    expect_shape = (n, p) if layout == "mat" else (n,)
-    for order, name, reff in ((1, "diff_loss", R.d1), (2, "diff2Loss", R.d2)):
-        try:
-            if wv is None:
-                got = getattr(obj, name)(yhat)
-            else:
-                got = getattr(obj, name)(yhat, apply_weighting=False)
-        except Exception as e:
-            bad(name + " raised on valid input", error=repr(e)[:300])
-            continue
-        counters["d%d_checks" % order] += 1
-        got = np.asarray(got, dtype=float)
-        ok_shape = got.shape == expect_shape or (layout == "col" and got.shape == (n, 1))
-        if not ok_shape:
-            bad(name + " does not return one value per prediction", shape=list(got.shape), expected_shape=list(expect_shape))
-            continue
-        flat = got.reshape(-1)
-        for i in range(m):
-            e = float(reff(kind, yv[i], mv[i], sp_vals[i]))
-            if not abs(flat[i] - e) <= 1e-9 * dscale(i, order) + 1e-300:
-                bad(name + " differs from the derivative of the unweighted loss", index=i, got=float(flat[i]), expected=e,
-                    y=yv[i], yhat=mv[i], spread=sp_vals[i])
-                break
+    def judge(mv, tag):
+        """loss / diff_loss / diff2Loss at the predictions currently held in the array `yhat` (values mv)."""
+        # ---- loss value.  Weighted form is only stated for Square; other classes are judged unweighted.
+        judge_loss = (wv is None) or kind == "Square"
+        if judge_loss:
+            ref = R.mp.mpf(0)
+            scale = R.mp.mpf(0)
+            for i in range(m):
+                v, s = R.nll_terms(kind, yv[i], mv[i], sp_vals[i], None if wv is None else wv[i])
+                ref += v
+                scale += s
+            try:
+                got = obj.loss(yhat)
+                counters["loss_checks"] += 1
+                if np.ndim(got) != 0:
+                    bad("loss is not a scalar", shape=list(np.shape(got)))
+                elif not abs(float(got) - float(ref)) <= 1e-9 * float(scale) + 1e-300:
+                    bad("loss differs from the reference negative log-likelihood", round=tag, got=float(got), expected=float(ref),
+                        scale=float(scale), y=yv, yhat=mv, spread=sp_vals)
+            except Exception as e:
+                bad("loss raised on valid input", error=repr(e)[:300])
+        else:
+            # with weights on a likelihood class: the unweighted loss is still well defined
+            try:
+                got = obj.loss(yhat, apply_weighting=False)
+                ref = R.mp.fsum(R.nll_terms(kind, yv[i], mv[i], sp_vals[i])[0] for i in range(m))
+                scale = R.mp.fsum(R.nll_terms(kind, yv[i], mv[i], sp_vals[i])[1] for i in range(m))
+                counters["loss_checks"] += 1
+                if not abs(float(got) - float(ref)) <= 1e-9 * float(scale) + 1e-300:
+                    bad("unweighted loss differs from the reference negative log-likelihood", got=float(got),
+                        expected=float(ref), y=yv, yhat=mv, spread=sp_vals)
+            except Exception as e:
+                bad("loss(apply_weighting=False) raised on valid input", error=repr(e)[:300])
+
+        # ---- derivatives of the unweighted loss, per prediction
+        dscale = lambda i, order: dscale_at(mv, i, order)
+        for order, name, reff in ((1, "diff_loss", R.d1), (2, "diff2Loss", R.d2)):
+            try:
+                if wv is None:
+                    got = getattr(obj, name)(yhat)
+                else:
+                    got = getattr(obj, name)(yhat, apply_weighting=False)
+            except Exception as e:
+                bad(name + " raised on valid input", error=repr(e)[:300])
+                continue
+            counters["d%d_checks" % order] += 1
+            got = np.asarray(got, dtype=float)
+            ok_shape = got.shape == expect_shape or (layout == "col" and got.shape == (n, 1))
+            if not ok_shape:
+                bad(name + " does not return one value per prediction", shape=list(got.shape), expected_shape=list(expect_shape))
+                continue
+            flat = got.reshape(-1)
+            for i in range(m):
+                e = float(reff(kind, yv[i], mv[i], sp_vals[i]))
+                if not abs(flat[i] - e) <= 1e-9 * dscale(i, order) + 1e-300:
+                    bad(name + " differs from the derivative of the unweighted loss", round=tag, index=i, got=float(flat[i]), expected=e,
+                        y=yv[i], yhat=mv[i], spread=sp_vals[i])
+                    break
+
+    y_before = y.copy()
+    judge(case["yhat"], "first")
+    # ---- the caller re-uses its prediction buffer: new predictions are written INTO THE SAME ndarray and everything is evaluated again
+    mv2 = []
+    for i in range(m):
+        v = case["yhat"][i] * math.exp(rng.gauss(0, 0.4)) if rng.random() < 0.7 else logu(rng, 1e-3, 1e4)
+        mv2.append(v)
+    yhat[...] = np.array(mv2, dtype=float).reshape(yhat.shape)
+    counters["buffer_reuse_rounds"] = 1
+    if not witnesses:
+        judge(mv2, "same prediction array overwritten in place")
+    if not np.array_equal(yhat.reshape(-1), np.array(mv2, dtype=float)) or not np.array_equal(y, y_before):
+        bad("a kernel modified the caller's observation / prediction array in place")
+    mv = mv2
     # ---- the reference derivatives themselves are cross-checked against numeric differentiation of the reference loss
     i0 = rng.randrange(m)
     for order, reff, numf in ((1, R.d1, R.d1_numeric), (2, R.d2, R.d2_numeric)):
         a = reff(kind, yv[i0], mv[i0], sp_vals[i0])
         b = numf(kind, yv[i0], mv[i0], sp_vals[i0])
         counters["ref_derivative_crosschecks"] += 1
-        if abs(a - b) > R.mp.mpf(10) ** -15 * (abs(a) + dscale(i0, order)):
+        if abs(a - b) > R.mp.mpf(10) ** -15 * (abs(a) + dscale_at(mv, i0, order)):
             return {"status": "inconclusive", "reason": "reference-derivative-self-check-failed",
                     "counters": counters, "sample": case}
     distinct = len(set(yv)) == m and len(set(mv)) == m and all(a != b for a, b in zip(yv, mv))
